@@ -387,6 +387,21 @@ def _replay_inner(st, mode, bad):
         internal_fit(ref, hist[-1]["k"])
         if not same(obj.B, ref.B, 1e-6) or not same(obj.X, ref.X, 1e-6):
             bad.append(("C14.ref-model", dict(q="fit()", **where0), np.asarray(ref.B).tolist(), np.asarray(obj.B).tolist()))
+    # ---- answers that were handed out stay what they were: a later fit of the same shape must not rewrite the stored
+    # result of the internal fit, nor an array returned by an earlier explicit fit
+    if est["reg"] and not ans["crossed"]:
+        try:
+            keepX = None if not hasattr(obj, "X") else np.array(obj.X, float).copy()
+            shape_rows = 2 if keepX is None else len(np.atleast_2d(keepX))
+            r1 = obj.fit(PROBES[:shape_rows].copy())
+            r1X = np.array(r1[0], float).copy()
+            r2 = obj.fit(PROBES[-shape_rows:].copy())
+            if not np.array_equal(np.asarray(r1[0], float), r1X):
+                bad.append(("C14.query-pure", dict(q="array returned by an earlier fit rewritten", **where0), r1X.tolist(), np.asarray(r1[0], float).tolist()))
+            if keepX is not None and not np.array_equal(np.asarray(obj.X, float), keepX):
+                bad.append(("C14.query-pure", dict(q="stored X rewritten by an explicit fit", **where0), keepX.tolist(), np.asarray(obj.X, float).tolist()))
+        except Exception as ex:
+            bad.append(("C14.no-error", dict(q="fit twice", exc=type(ex).__name__, **where0), None, repr(ex)[:200]))
     # ---- heavy answers: object under test vs fresh object from the registered state; purity ---------
     h1 = heavy(obj, ad)
     h2 = heavy(obj, ad)
